@@ -654,12 +654,59 @@ impl Check for C02 {
             Phase { name: "the same header content at every position of a carrier, each position in its own encoding (equal views, different bytes)", cases: scale(if q { 4000 } else { 100000 }, b), exhaustive: false },
             Phase { name: "protected byte strings whose content is a tagged map, a wrapped map, a map with trailing bytes ...: if the structure is accepted at all, the received bytes are retained and re-emitted", cases: scale(if q { 12000 } else { 100000 }, b), exhaustive: false },
             Phase { name: "decoded signatures, recipients, counter signatures and supplementary information handed to the adders / setters of the enclosing structure's builder, then encoded", cases: scale(if q { 12000 } else { 100000 }, b), exhaustive: false },
+            Phase { name: "birthday: a COSE_Sign with 2^17 signers (and a COSE_Encrypt with 2^17 recipients) whose protected headers are pairwise different byte strings of equal length: each keeps its own bytes", cases: 2, exhaustive: true },
         ]
     }
     fn run_case(&self, ctx: &mut Ctx, phase: usize, idx: u64) {
         let ty = CARRIERS[(idx % 12) as usize];
         let o = GenOpts { styled_prot: 255, built: false, max_depth: 3, mixed: false };
         match phase {
+            5 => {
+                // a decoder that shares parsed headers between positions by a fingerprint of their bytes
+                // (anything shorter than the bytes) hands one position another position's header
+                use crate::model::{MEncrypt, MHeader, MProt, MRecipient, MSign, MSignature};
+                let n = 1usize << 17;
+                let mut seen = std::collections::HashSet::new();
+                let mut prots: Vec<MProt> = Vec::with_capacity(n);
+                while prots.len() < n {
+                    let kid = ctx.rng.bytes(8);
+                    if !seen.insert(kid.clone()) {
+                        continue;
+                    }
+                    let header = MHeader { kid, ..Default::default() };
+                    let bytes = rcbor::det(&model::enc_header(&header));
+                    prots.push(MProt { bytes: Some(bytes), header });
+                }
+                let v = if idx == 0 {
+                    MVal::Sign(MSign { prot: MProt { bytes: Some(vec![]), header: MHeader::default() }, unprot: MHeader::default(), payload: None, sigs: prots.into_iter().map(|p| MSignature { prot: p, unprot: MHeader::default(), sig: vec![1] }).collect() })
+                } else {
+                    MVal::Encrypt(MEncrypt { prot: MProt { bytes: Some(vec![]), header: MHeader::default() }, unprot: MHeader::default(), ct: None, recipients: prots.into_iter().map(|p| MRecipient { prot: p, unprot: MHeader::default(), ct: None, recipients: vec![] }).collect() })
+                };
+                let ty = v.ty();
+                let bytes = rcbor::det(&model::encode(&v));
+                ctx.eval();
+                ctx.count("birthday-cases");
+                match capi::from_slice(ty, &bytes) {
+                    Ok(c) => {
+                        let expected = model::prot_positions(&v);
+                        match positions_of(&c) {
+                            Some(got) if got == expected => {
+                                ctx.nontrivial_bytes(&bytes[..4096]);
+                                let mut n2 = Notes(vec![]);
+                                if capi::view(&c, &mut n2).as_ref() != Some(&v) {
+                                    ctx.violation(&format!("C02/birthday-parsed-view/{}", ty.name()), "with 2^17 pairwise different protected headers, some position's parsed view is not the content of its own bytes".into(), J::Null);
+                                }
+                            }
+                            Some(got) => {
+                                let d = expected.iter().zip(got.iter()).find(|(a, b)| a != b).map(|(a, b)| format!("{}: wire {:?} retained {:?}", a.0, a.1.as_ref().map(|x| hex(x)), b.1.as_ref().map(|x| hex(x)))).unwrap_or_default();
+                                ctx.violation(&format!("C02/birthday-retained-bytes/{}", ty.name()), format!("with 2^17 pairwise different protected headers of equal length, a position does not retain its own bytes: {}", d), J::Null);
+                            }
+                            None => {}
+                        }
+                    }
+                    Err(k) => ctx.violation(&format!("C02/birthday-rejected/{}", ty.name()), format!("a well-formed {} with 2^17 signers / recipients is rejected with {}", ty.name(), k.name()), J::Null),
+                }
+            }
             0 => {
                 let v = gen::gen_mval(&mut ctx.rng, ty, &o);
                 c02_case(ctx, ty, &v);
